@@ -218,4 +218,50 @@ CONFIG = {
         "thorough": {"checks": 150000, "shards": 14, "min_nontrivial": 250000, "timeout": 3000},
         "mandatory_labels": ['C19:nontrivial:weightedSum', 'C19:nontrivial:owa', 'C19:nontrivial:choquetIntegral', 'C19:nontrivial:electreIII', 'C19:nontrivial:majorityHeuristic', 'C19:nontrivial:aspectEliminationHeuristic', 'C19:nontrivial:satisfactionHeuristic', 'C19:inline', 'C19:newCriterion', 'C19:zero-functions', 'C19:degenerate-range'],
     },
+    "C09": {
+        "rule": "history cases = sequences of 1..8 operations (decide a new generated request / decide an earlier request again; "
+                "aliasing-sensitive shapes: all alternatives considered, current choice taken from the considered set, value-"
+                "rewriting biases before a heuristic, 12% rejected requests) executed in one process with a deep snapshot (incl. the "
+                "spare capacity of JSON-decoded slices) of every request value and the bytes of every returned result, re-checked "
+                "after every step; report cases = fully probed requests where every bias report (fatigue lists, reversed values, "
+                "added criteria) and every state handed on is compared with the probe snapshot after the final method ran. "
+                "Non-trivial = sequence with a repeated request or an aliasing-sensitive accepted request with >= 1 bias / report "
+                "case with all alternatives considered or the current choice from the considered set; distinct by case text",
+        "assumptions": ["the probe hands `current` on unchanged (same pointer), so it observes exactly what the next stage receives"],
+        "quick": {"checks": 12000, "shards": 8, "min_nontrivial": 20000},
+        "thorough": {"checks": 150000, "shards": 14, "min_nontrivial": 250000, "timeout": 3000},
+        "mandatory_labels": ["C09:spare-capacity", "C09:repeated-request", "C09:aliasing-sensitive", "C09:current-choice-from-considered", "C09:all-considered"],
+    },
+    "C10": {
+        "rule": "cases = batches of 2..12 generated requests (all methods and biases, 50% heuristics with generated level series, "
+                "25% duplicates of another request of the batch, 17% constraint mutants that must be rejected), every request run by "
+                "1..4 goroutines released together, 3 rounds per batch, against the in-process handler of a -race build (GOMAXPROCS "
+                "2/4/16 across shards); thorough additionally against a -race build of the real server process. Oracle: every "
+                "concurrent response equals the response of the same request decided alone (status; body when 200), the race "
+                "detector reports nothing, the process survives. Non-trivial = batch with >= 2 accepted requests sharing a method or "
+                "a bias; distinct by batch text",
+        "assumptions": ["schedules are sampled, not enumerated; the race detector flags unsynchronised conflicting accesses on the executed paths independent of timing",
+                        "for rejected requests only the status is compared (error texts may list registry names in map order)"],
+        "quick": {"checks": 250, "shards": 8, "min_nontrivial": 1200, "race": True, "gomaxprocs": [2, 4, 16, 8], "death_is_violation": True},
+        "thorough": {"checks": 4000, "shards": 14, "min_nontrivial": 20000, "race": True, "server": True, "gomaxprocs": [2, 4, 16, 8],
+                     "death_is_violation": True, "timeout": 3000},
+        "mandatory_labels": ["C10:rejected-request-in-batch"],
+    },
+    "C20": {
+        "rule": "cases = request bodies of four kinds: valid generated requests (20%), constraint-level mutants = exactly one documented "
+                "constraint broken on a valid request (30%, 29 operators), type-level mutants = one subtree of a valid request replaced "
+                "by another JSON type / dropped / duplicated (30%), byte-level = hostile constants, truncation, byte flips, junk "
+                "insertion, deep nesting (20%); sent to the in-process handler (every case, 30 s watchdog, lowered max stack) and to "
+                "the real server process (10% of the case count; liveness after every request, known-good request re-checked every "
+                "50). Oracle: 200 with result+biases arrays (valid: also a well-formed ranking) or 400 with non-empty error and echoed "
+                "request, nothing else; constraint mutants never answered with a ranking; unknown method/bias errors list every "
+                "registered name; process survives; GET /api/preferenceFunctions has a schema object per method. Non-trivial = body "
+                "that passes JSON binding (reaches MakeDecision); distinct by (kind, mutation, body)",
+        "assumptions": ["bodies <= 64 KiB, <= 6 criteria, <= 7 alternatives; resource exhaustion by size (e.g. series coefficient below 1e-3) is outside what is explored",
+                        "a valid request answered 400 only because its result is not finite (json: unsupported value) is counted, not judged (C07 decides combinations)"],
+        "quick": {"checks": 6000, "shards": 8, "min_nontrivial": 20000, "server": True, "death_is_violation": True, "maxstack": 67108864},
+        "thorough": {"checks": 120000, "shards": 14, "min_nontrivial": 400000, "server": True, "death_is_violation": True, "maxstack": 67108864, "timeout": 3000},
+        "mandatory_labels": ["C20:C20:valid:200", "C20:C20:constraint:400", "C20:C20:type:200", "C20:C20:type:400", "C20:C20:bytes:400",
+                             "C20:C20server:constraint:400", "C20:C20server:valid:200", "C20:known-good-rechecked"],
+    },
 }
